@@ -49,5 +49,10 @@ def namesAsModelled : Bool :=
   && Gen.C19.timeToEmptyAlts == ["time_to_empty_now"]
   && Gen.C19.statKeys == ["ctxt", "intr", "softirq"]
   && Gen.C19.btimeKey == "btime"
+  -- cpu_count_cores: `core_cpus_list` first, the deprecated `thread_siblings_list` second (`CountTree.coreCpus`
+  -- / `.siblings`), `{physical id: cpu cores}` (`kPhysicalId`, `kCpuCores` in `coresScan`)
+  && Gen.C19.topologyGlobs == ["/sys/devices/system/cpu/cpu[0-9]*/topology/core_cpus_list",
+                               "/sys/devices/system/cpu/cpu[0-9]*/topology/thread_siblings_list"]
+  && Gen.C19.coresMapping == ["physical id", "cpu cores", "physical id", "cpu cores"]
 
 end Psutil.C19
